@@ -66,6 +66,9 @@ func c13Abs(c *Case) {
 	case 1:
 		e = xref.Path{Start: xref.Group{X: e}, Steps: []*xref.Step{g.FreeStep(env.Names)}}
 	}
+	if c.expensive(e, d) {
+		return
+	}
 	src := xref.Render(e)
 	want, ok, why := refNodeSet(e, xref.NewCtx(d.Root))
 	if !ok {
@@ -107,6 +110,9 @@ func c13Compose(c *Case) {
 	d := c13Doc(c, 4)
 	env := &xgen.Env{Doc: d, Ctx: d.Nodes[g.Intn(len(d.Nodes))], Names: namesIn(d)}
 	p := c13Path(g, env, false)
+	if c.expensive(p, d) {
+		return
+	}
 	src := xref.Render(p)
 	ce := c.compile(src, func() map[string]interface{} { return docDetail(d, d.Root) })
 	if ce == nil {
@@ -169,6 +175,9 @@ func c13Wrap(c *Case) {
 		p = g.PosPath(env, 4)
 	default:
 		p = c13Path(g, env, g.Chance(0.3))
+	}
+	if c.expensive(p, d) {
+		return
 	}
 	src := xref.Render(p)
 	want, ok, why := refNodeSet(p, xref.NewCtx(ctx))
